@@ -74,11 +74,11 @@ class World:
             cls, f = v[1], v[2]
             if "?" in f and not f["?"]:
                 return None
-            if cls.startswith("Ref:"):
-                return StaticProxy(self, cls[4:])
             conv = self.sl.to_python.get(cls)
             if conv is not None:
                 return conv(self, f)
+            if cls.startswith("Ref:"):
+                return StaticProxy(self, cls[4:])
             return RecProxy(self, cls, f)
         if isinstance(v, tuple) and v[0] == "tuple":
             return tuple(self.to_python(x) for x in v[1])
